@@ -181,6 +181,9 @@ func (s *Scheduler) run(now time.Time) {
 	sort.SliceStable(entries, func(i, j int) bool {
 		return entries[i].Next.Before(entries[j].Next)
 	})
+	// A DAG with several schedules of one kind that fire in the same minute
+	// is invoked once for that minute, not once per schedule.
+	invoked := make(map[string]bool)
 	for _, e := range entries {
 		t := e.Next
 		if t.IsZero() {
@@ -190,6 +193,16 @@ func (s *Scheduler) run(now time.Time) {
 		}
 		if t.After(now) {
 			break
+		}
+		if e.Job != nil {
+			key := e.EntryType.String() + " " + e.Job.String()
+			if d := e.Job.GetDAG(); d != nil {
+				key = e.EntryType.String() + " " + d.Location
+			}
+			if invoked[key] {
+				continue
+			}
+			invoked[key] = true
 		}
 		go func(e *entry) {
 			if err := e.Invoke(); err != nil {
